@@ -292,6 +292,27 @@ def step (st : State) (line : String) : State × String :=
       let split := ((arg? "split" rest).bind String.toNat?).getD 0
       (st, showPair (wPair main fb sup split))
     | _, _, _ => (st, "bad-op")
+  | "report" :: rest =>
+    let entries : Option (List (Bytes × List Bytes)) :=
+      match arg? "protos" rest with
+      | none => some []
+      | some v =>
+        if v = "-" || v.isEmpty then some []
+        else (v.splitOn ",").mapM fun e =>
+          match (e.splitOn ";").mapM unhx? with
+          | some (m :: fbs) => some (m, fbs)
+          | _ => none
+    match entries, argBytes "neg" rest with
+    | some installed, some neg =>
+      if !unambiguousB installed then (st, "bad-op")
+      else
+        let n := " n=" ++ toString (offeredNames installed).length
+        match reportInstalled installed neg with
+        | none => (st, "err:not-supported" ++ n)
+        | some (main, fb) =>
+          (st, "ok to=" ++ toString ((installed.map (·.1)).idxOf main) ++ " main=" ++ hx main ++ " fb=" ++
+            (match fb with | none => "none" | some f => hx f) ++ n)
+    | _, _ => (st, "bad-op")
   | "negotiate" :: rest =>
     match version? (arg? "ver" rest), argList "dialer" rest, argList "listener" rest, argBytes "dpay" rest,
       argBytes "lpay" rest with
